@@ -131,8 +131,7 @@ def gen_topology(tier, seed):
         for nl in A.topologies(4):
             for l in LS:
                 for wmode in ("none", "equal", "two"):
-                    for cell in ("orth", "tri"):
-                        yield mkcase(seed, 4, nl, l, wmode, cell, "generic")
+                    yield mkcase(seed, 4, nl, l, wmode, "tri" if (l + len(wmode)) % 2 else "orth", "generic")
         for nl, o in distinct_orders(A.topologies(4), ("desc", "rot")):
             for l, wmode, cell, geom in ((6, "two", "tri", "special"), (5, "three", "orth", "cluster")):
                 yield mkcase(seed, 4, nl, l, wmode, cell, geom, order=o, nmax="tight" if l == 5 else "default")
@@ -371,12 +370,12 @@ TOPO_H = [
 
 
 def gen_history(tier, seed):
-    ls = (4, 7) if tier == "quick" else (2, 4, 6, 7, 11, 12)
-    depth = 3 if tier == "quick" else 4
+    ls = (4, 7) if tier == "quick" else (2, 4, 6, 7, 12)
     for l in ls:
         for cell in ("orth", "tri"):
             for wmode in ("none", "two"):
                 for alpha in ("mixed", "even"):
+                    depth = 3 if (tier == "quick" or (alpha == "mixed" and l != 6)) else 4
                     H = cell3(cell)
                     cfgs = [positions(seed, 4, "cluster", H, tag=f"h{c}") for c in range(3)]
                     if alpha == "mixed":
@@ -493,6 +492,108 @@ def run_history(case):
     R.elem = elem
     R.outcome(sorted(outd))
     R.nontrivial = popl >= 2
+    return R
+
+
+# ------------------------------------------------------------------------------------------ C09.sources
+def parse_nfile(fn, n, conv):
+    """Independent reader of the documented neighbour/weight file format: list (frames) of list (id order) of lists."""
+    lines = [x for x in open(fn).read().split("\n") if x.strip()]
+    frames, k = [], 0
+    while k < len(lines):
+        k += 1  # header
+        fr = [None] * n
+        for _ in range(n):
+            it = lines[k].split()
+            k += 1
+            fr[int(it[0]) - 1] = [conv(x) for x in it[2:2 + int(it[1])]]
+        frames.append(fr)
+    return frames
+
+
+def gen_sources(tier, seed):
+    """Neighbour (and face-area weight) files produced by the library's own neighbour definitions, two frames."""
+    for cell in ("orth", "tri"):
+        ls = (4, 6) if tier == "quick" else (2, 3, 4, 6, 9, 10, 11)
+        # N-nearest / cutoff: all 6-, 7-, 8-subsets of a jittered 2x2x2 lattice
+        box = [4.0, 4.0, 4.0]
+        H = A.hmat_tri(box, [0.0, 0.0, 0.0] if cell == "orth" else [1.0, -0.5, 0.5])
+        sites = [np.array(A.jl_points(seed, 2, 3, box, tag=f"c09s{f}")) @ (H / 4.0) for f in range(2)]
+        for size in (8, 7, 6):
+            for keep in itertools.combinations(range(8), size):
+                frames = [s[list(keep)].tolist() for s in sites]
+                for src in (["nnearest", 1], ["nnearest", 3], ["nnearest", 5], ["cutoff", 2.9]):
+                    for l in ls:
+                        if tier == "quick" and size == 6 and l != 6:
+                            continue
+                        yield {"cell": cell, "H": H.tolist(), "frames": frames, "src": src, "l": l, "ppp": [1, 1, 1]}
+        # Voronoi (needs >= 3 sites per direction once there is a vacancy, otherwise a cell touches its own image):
+        # jittered 3x3x3 lattice, complete and with every single vacancy; complete 2x2x2
+        box3 = [6.0, 6.0, 6.0]
+        H3 = A.hmat_tri(box3, [0.0, 0.0, 0.0] if cell == "orth" else [1.5, -1.0, 0.5])
+        sites3 = [np.array(A.jl_points(seed, 3, 3, box3, tag=f"c09v{f}")) @ (H3 / 6.0) for f in range(2)]
+        plc = [(H, [s.tolist() for s in sites]), (H3, [s.tolist() for s in sites3])]
+        for vac in range(27):
+            plc.append((H3, [np.delete(s, vac, axis=0).tolist() for s in sites3]))
+        for k, (Hc, frames) in enumerate(plc):
+            for mode in ("weighted", "plain"):
+                for l in ls:
+                    if tier == "quick" and k >= 2 and (l == 4) != (k % 2 == 0):
+                        continue
+                    yield {"cell": cell, "H": Hc.tolist(), "frames": frames, "src": ["voronoi", mode], "l": l, "ppp": [1, 1, 1]}
+
+
+def run_sources(case):
+    from PyMatterSim.neighbors.calculate_neighbors import Nnearests, cutoffneighbors
+    from PyMatterSim.neighbors.freud_neighbors import cal_neighbors
+    from PyMatterSim.static.boo import boo_3d
+
+    R = Result()
+    H = np.array(case["H"], float)
+    frames, l, ppp = case["frames"], case["l"], case["ppp"]
+    n = len(frames[0])
+    kind, arg = case["src"]
+    sig = {"cell": case["cell"], "source": kind, "arg": str(arg)}
+    snaps = mk_snaps(frames, H, [1] * n)
+    wfile = None
+    if kind == "nnearest":
+        Nnearests(snaps, N=int(arg), ppp=np.array(ppp), fnfile="c09_src.dat")
+        nfile = "c09_src.dat"
+    elif kind == "cutoff":
+        cutoffneighbors(snaps, r_cut=float(arg), ppp=np.array(ppp), fnfile="c09_src.dat")
+        nfile = "c09_src.dat"
+    else:
+        cal_neighbors(snaps, "c09_vor")
+        nfile = "c09_vor.neighbor.dat"
+        wfile = "c09_vor.facearea.dat" if arg == "weighted" else None
+    nls = parse_nfile(nfile, n, lambda x: int(x) - 1)
+    wts = parse_nfile(wfile, n, float) if wfile else None
+    if any(i in x for fr in nls for i, x in enumerate(fr)):
+        return R.screen()  # Voronoi of a small periodic system: a particle neighbouring its own image has no bond direction
+    if any(len(x) == 0 for fr in nls for x in fr) or (wts is not None and any(min(x) <= 0 for fr in wts for x in fr)):
+        return R.screen()  # a particle without neighbours / a non-positive weight is outside the property's domain
+    nmax = max(len(x) for fr in nls for x in fr)
+    b = boo_3d(snaps, l, nfile, weightsfile=wfile, ppp=np.array(ppp), Nmax=nmax)
+    F = len(frames)
+    qs, Qs = [], []
+    for f in range(F):
+        q, Q = B.ref_qlm(frames[f], H, ppp, nls[f], l, wts[f] if wts is not None else None)
+        qs.append(q)
+        Qs.append(Q)
+    if b.smallqlm.shape != np.array(qs).shape or not close(b.smallqlm, np.array(qs)):
+        R.fail(f"q_lm from a library-written {kind} neighbour file differs from the reference by {maxdiff(b.smallqlm, np.array(qs)):.3e}",
+               sub="C09.weights" if wts is not None else "C09.qlm", sig=dict(sig, clause="qlm"))
+        return R
+    if not close(b.largeQlm, np.array(Qs)):
+        R.fail("Q_lm from a library-written neighbour file differs from the reference", sub="C09.coarse", sig=dict(sig, clause="Qlm"))
+    ql = b.ql_Ql()
+    if not close(ql, B.ref_ql(np.array(qs), l)):
+        R.fail("q_l differs", sub="C09.ql", sig=dict(sig, clause="ql"))
+    if np.any(ql < 0) or np.any(ql > 1 + 1e-12):
+        R.fail("q_l outside [0, 1]", sub="C09.bounds", sig=dict(sig, clause="ql_bound"))
+    el = check_sij(R, sig, b, qs, nls, False, 0.7, False, nmax)
+    R.outcome(ql, nd=8)
+    R.elem = 2 * F * n * (2 * l + 1) + el
     return R
 
 
@@ -627,7 +728,7 @@ def subs(tier, seed):
     return [
         Sub("C09.topology", gen_topology, run_topology,
             rule="every way to give each of N particles a non-empty neighbour list (N=3: 27 topologies in every list order; N=4: "
-                 + ("all 2401 at l=6 + a 25-topology core x l=2..12 x weights x list orders" if q else "all 2401 x l=2..12 x {none,equal,two-valued} weights x {orth,tri}; "
+                 + ("all 2401 at l=6 + a 25-topology core x l=2..12 x weights x list orders" if q else "all 2401 x l=2..12 x {none,equal,two-valued} weights (cell orth/tri by parity); "
                     "all list orders at l=5,6")
                  + ") x l=2..12 x weights {none, all equal, two-valued} x {orthogonal, triclinic} x {generic, axis-aligned/wrapped bonds}; all "
                  "7 non-trivial masks, second triclinic cell, Nmax = max cn, three-valued weights on N=3; compared per case: q_lm, Q_lm, q_l, Q_l, s_ij/S_ij "
@@ -639,11 +740,15 @@ def subs(tier, seed):
                  "(5 N=3 topologies x 2 + " + ("5" if q else "65") + " N=4 topologies); output files at N=3,l=6",
             bounds={"l_full": [4, 6], "l_core": [2, 12]}),
         Sub("C09.history", gen_history, run_history,
-            rule="explicit-state BFS over frame histories (depth <= " + ("3" if q else "4") + "): each appended frame picks (configuration, neighbour topology, "
+            rule="explicit-state BFS over frame histories (depth <= " + ("3" if q else "4; 3 for the uneven alphabet unless l=6") + "): each appended frame picks (configuration, neighbour topology, "
                  "timestep increment) from a 4-5 letter alphabet; per state a fresh boo_3d on fresh files; q_lm/Q_lm per frame, time_corr (linear "
                  "and log spacing, F=1), spatial_corr (frame mean), s_ij per frame, for local and coarse-grained vectors; l in "
-                 + ("{4,7}" if q else "{2,4,6,7,11,12}") + " x {orth,tri} x weights x 2 alphabets (mask 101 in one); non-trivial = >= 2 populated gA bins",
+                 + ("{4,7}" if q else "{2,4,6,7,12}") + " x {orth,tri} x weights x 2 alphabets (mask 101 in one); non-trivial = >= 2 populated gA bins",
             bounds={"depth": 3 if q else 4, "letters": 5}),
+        Sub("C09.sources", gen_sources, run_sources,
+            rule="neighbour (and face-area weight) files written by the library's own N-nearest (N=1,3,5), cutoff and Voronoi routines (N-nearest/cutoff: all 6-, 7-, 8-subsets "
+                 "of a jittered 2x2x2 lattice; Voronoi: 2x2x2, 3x3x3 and 3x3x3 with every single vacancy; two frames, orth/tri), parsed by an independent reader; q_lm, Q_lm, q_l, s_ij vs reference; l in "
+                 + ("{4,6}" if q else "{2,3,4,6,9,10,11}") + "; cases where a particle has no neighbour are screened"),
         Sub("C09.crystals", gen_crystals, run_crystals,
             rule="13-atom fcc/hcp/bcc(8)/bcc(14)/sc/icosahedron clusters (as given and rotated, shell atoms with and without shell lists) and periodic "
                  "supercells (27-54 atoms, shifted across the boundary): q4,q6,w-hat4,w-hat6 of the central/every atom vs the tabulated values (1e-5) and "
